@@ -179,7 +179,16 @@ class RealNode:
             self.sock.errq.clear()
             return
         cb, args = r
-        loop.call_soon(cb, *args)   # through Handle._run, so escaping exceptions reach the loop's handler
+
+        def readable():
+            # as with a real selector loop: removing the reader (closing the transport) in the meantime cancels this call; what
+            # was readable is dropped with the socket
+            if loop.readers.get(self.sock.fd) is r:
+                cb(*args)
+            else:
+                self.sock.rx.clear()
+                self.sock.errq.clear()
+        loop.call_soon(readable)    # through Handle._run, so escaping exceptions reach the loop's handler
         loop.settle()
 
     def state(self):
